@@ -566,6 +566,7 @@ def gen_canon(seed, nfiles=None, **kw):
     nf = r.choice([0, 0, 1, 2, 3]) if nfiles is None else nfiles
     files, main = render_canon(prog, r, nf)
     ast = make_ast(prog)
+    ast["canon"] = True
     return {"files": files, "main": main, "ast": ast, "canon": True}
 
 
@@ -578,6 +579,7 @@ def gen_free(seed, nfiles=None, **kw):
     style = r.choice(["normal", "normal", "dense", "dense", "sparse"])
     files, main, tokmap = render_free(prog, r, nf, lib_in_file=r.random() < 0.7, style=style)
     ast = make_ast(prog)
+    ast["canon"] = False
     return {"files": files, "main": main, "ast": ast, "canon": False, "tokmap": sorted(tokmap)}
 
 
